@@ -339,6 +339,16 @@ def get_block_start_patterns():
     return _block_start_pattern
 
 
+def column_to_offset(line, byte_column):
+    """Convert a ``col_offset`` of the ``ast`` module to an index into `line`
+
+    The column offsets of AST nodes count UTF-8 bytes, not characters.
+    """
+    if line.isascii():
+        return byte_column
+    return len(line.encode("utf-8")[:byte_column].decode("utf-8", "ignore"))
+
+
 def count_line_indents(line):
     indents = 0
     for char in line:
